@@ -54,7 +54,9 @@ def oracle (delivered : NBytes) (w : Wire) (endi : String) (calls : List String)
           -- … and the refusal does not wait for the payload: an over-limit literal whose octets have
           -- not (all) arrived must already have its tagged reply
           let tags := w.replies.filterMap fun (_, r) => match r with | .tagged t _ => some t | _ => none
-          if fs.all (·.strict) && over.any (fun f => !f.complete &&
+          -- (judged when the server was still waiting at the end: once it has closed the connection,
+          -- later commands are simply not reached)
+          if endi == "w" && fs.all (·.strict) && over.any (fun f => !f.complete &&
               (match f.tag with | some t => !tags.contains t | none => false)) then
             "fail:append-over-limit-not-refused-before-payload"
           else "ok"
